@@ -82,6 +82,13 @@ fn gen_lookup_program(rng: &mut ChaCha8Rng, lu_slots: usize, lut_slots: usize) -
                 past_prefix = Some(base.len());
             }
         }
+        // (a nested table that coincides with a table declared earlier would be de-duplicated by the
+        // builder, which is legitimate but leaves this table without rows of its own: keep them distinct)
+        if tables.iter().any(|x| *x == table) {
+            let keep = table.len();
+            table = pool.iter().take(keep).map(|&i| (i, rng.gen())).collect();
+            past_prefix = None;
+        }
         let len = table.len();
         let n_lookups = match rng.gen_range(0..7) {
             0 => 1,
